@@ -295,6 +295,18 @@ func VerifH_C09_normalize() {
 		u.canon = "https://cdn.example/lib.js"
 		verifrt.Cover("scheme-relative-under-https")
 	}
+	if u.raw == "/rel/p.png" && verifrt.Choice("parent-has-a-port", 2) == 1 {
+		// a path-absolute reference keeps the port of the page it was found on
+		parent = &models.URL{Raw: "http://site.example:8080/dir/page"}
+		if err := parent.Parse(); err != nil {
+			panic(err)
+		}
+		o := verifmodel.AdaOutcome{Protocol: "http:", Hostname: "site.example", Host: "site.example:8080", Href: "http://site.example:8080/rel/p.png", HrefWithFr: "http://site.example:8080/rel/p.png"}
+		verifmodel.AdaTable["/rel/p.png|http://site.example:8080"] = o
+		verifmodel.AdaTable["/rel/p.png|http://site.example:8080/dir/page"] = o
+		u.canon, u.port = "http://site.example:8080/rel/p.png", ":8080"
+		verifrt.Cover("path-absolute-under-a-port")
+	}
 	if u.relative {
 		verifrt.Cover("relative")
 		err = NormalizeURL(url, parent)
